@@ -82,3 +82,18 @@ Proof.
   rewrite (nth_indep _ 0%Z (gen_variable_map_entry sh cols [])) by (rewrite map_length, index_tuples_length; exact Hk).
   rewrite map_nth. apply gen_variable_map_entrywise; assumption.
 Qed.
+
+From SageVerif Require Import Gen.GenAlloc Proofs.GenAllocSpec.
+Lemma nth_map_lt {X Y} (f : X -> Y) : forall l k d d', k < length l -> nth k (map f l) d = f (nth k l d').
+Proof. induction l as [|x l IH]; intros [|k] d d' H; cbn [length map nth] in *; try lia; [reflexivity|]. apply IH. lia. Qed.
+
+Lemma gen_component_placement : gen_component_placement_stmt.
+Proof.
+  intros sh c gen col_of k Hk. rewrite gen_unstructured_equiv. cbn [snd].
+  set (ids := map (fun i => (c + Z.of_nat i)%Z) (seq 0 (size_of sh))).
+  assert (Hl : length ids = size_of sh) by (unfold ids; rewrite map_length, seq_length; reflexivity).
+  rewrite gen_variable_map_entrywise; [|rewrite map_length; exact Hl|exact Hk].
+  rewrite (nth_map_lt col_of ids k 0%Z 0%Z) by (rewrite Hl; exact Hk).
+  unfold ids. rewrite (nth_map_lt _ _ k 0%Z 0) by (rewrite seq_length; exact Hk).
+  rewrite seq_nth by exact Hk. reflexivity.
+Qed.
